@@ -943,6 +943,116 @@ Proof.
   rewrite OK, S, T. reflexivity.
 Qed.
 
+(* ====================================================================== *)
+(** * hsl *)
+
+(* binary64 comparison: swapping the operands reverses the result *)
+Lemma SFcompare_antisym x y :
+  SpecFloat.SFcompare y x = option_map CompOpp (SpecFloat.SFcompare x y).
+Proof.
+  destruct x as [sx|sx| |sx mx ex], y as [sy|sy| |sy my ey]; simpl; try reflexivity;
+    try (destruct sx; reflexivity); try (destruct sy; reflexivity); try (destruct sx, sy; reflexivity).
+  destruct sx, sy; simpl; try reflexivity; rewrite (Z.compare_antisym ex ey);
+    destruct (ex ?= ey)%Z; simpl; try reflexivity.
+  - rewrite (Pos.compare_cont_antisym mx my Eq). reflexivity.
+  - rewrite (Pos.compare_cont_antisym mx my Eq). reflexivity.
+Qed.
+
+Lemma SFcompare_none x y : SpecFloat.SFcompare x y = None -> x = SpecFloat.S754_nan \/ y = SpecFloat.S754_nan.
+Proof.
+  destruct x as [sx|sx| |sx mx ex], y as [sy|sy| |sy my ey]; simpl; intros H; try discriminate; auto.
+Qed.
+
+Lemma not_nan_sf x : is_nan x = false -> Prim2SF x <> SpecFloat.S754_nan.
+Proof.
+  unfold is_nan. rewrite eqb_spec. intros H E. rewrite E in H. discriminate.
+Qed.
+
+(* for numbers (not NaN): x < y is the negation of y <= x *)
+Lemma ltb_negb_leb x y : is_nan x = false -> is_nan y = false -> PrimFloat.ltb x y = negb (PrimFloat.leb y x).
+Proof.
+  intros Hx Hy. rewrite ltb_spec, leb_spec. unfold SpecFloat.SFltb, SpecFloat.SFleb.
+  rewrite (SFcompare_antisym (Prim2SF x) (Prim2SF y)).
+  destruct (SpecFloat.SFcompare (Prim2SF x) (Prim2SF y)) as [c|] eqn:E.
+  - destruct c; reflexivity.
+  - apply SFcompare_none in E. destruct E as [E|E]; [apply not_nan_sf in Hx | apply not_nan_sf in Hy]; contradiction.
+Qed.
+
+(* the code's range test and the documented range agree on numbers *)
+Lemma hsl_range_tests_agree x hi : is_nan x = false -> is_nan hi = false ->
+  hsl_out_of_range x hi = negb (hsl_in_range x hi).
+Proof.
+  intros Hx Hh. unfold hsl_out_of_range, hsl_in_range.
+  rewrite (ltb_negb_leb x 0 Hx) by (vm_compute; reflexivity). rewrite (ltb_negb_leb hi x Hh Hx).
+  rewrite negb_andb. reflexivity.
+Qed.
+
+Section HslFacts.
+Variable o : oracles.
+
+(* wrong number of arguments: the documented panic, whatever the values *)
+Lemma hsl_arg_count bad nums : (List.length nums = 0 \/ 5 <= List.length nums)%nat ->
+  hsl_with o bad nums = OPanic BadArguments.
+Proof.
+  destruct nums as [|a [|b [|c [|d [|e r]]]]]; simpl; intros H; try reflexivity; lia.
+Qed.
+
+Lemma hsl_with_ext bad1 bad2 nums :
+  (forall x, In x nums -> bad1 x 360%float = bad2 x 360%float /\ bad1 x 100%float = bad2 x 100%float) ->
+  hsl_with o bad1 nums = hsl_with o bad2 nums.
+Proof.
+  intros H. destruct nums as [|a [|b [|c [|d [|e r]]]]]; try reflexivity; unfold hsl_with;
+    repeat match goal with
+           | |- context [bad1 ?x 360%float] => rewrite (proj1 (H x ltac:(simpl; tauto)))
+           | |- context [bad1 ?x 100%float] => rewrite (proj2 (H x ltac:(simpl; tauto)))
+           end; reflexivity.
+Qed.
+
+(* documented acceptance: hue in [0,360], the others in [0,100] *)
+Definition hsl_args_ok (nums : list float) : bool :=
+  match nums with
+  | [] => false
+  | h :: rest => hsl_in_range h 360 && forallb (fun x => hsl_in_range x 100) rest
+  end.
+
+(* with the documented range test: accepted exactly when 1..4 arguments are all
+   in their documented ranges; missing arguments default to 100, 50, 100; the
+   result has the documented shape *)
+Lemma hsl_fixed_spec nums : (1 <= List.length nums <= 4)%nat ->
+  hsl_fixed o nums =
+  if hsl_args_ok nums
+  then ORet (VStr (hsl_text o (nth 0 nums 0%float) (nth 1 nums 100%float) (nth 2 nums 50%float) (nth 3 nums 100%float)))
+  else OPanic BadArguments.
+Proof.
+  destruct nums as [|a [|b [|c [|d [|e r]]]]]; simpl; intros H; try lia;
+    unfold hsl_fixed, hsl_with; simpl;
+    repeat match goal with |- context [hsl_in_range ?x ?hi] => destruct (hsl_in_range x hi); simpl end;
+    reflexivity.
+Qed.
+
+(* the code (range tests written as `x < 0 || x > max`): the same, for numbers *)
+Lemma hsl_model_spec nums : Forall (fun x => is_nan x = false) nums ->
+  hsl_model o nums = hsl_fixed o nums.
+Proof.
+  intros F. apply hsl_with_ext. intros x Hin.
+  rewrite Forall_forall in F. specialize (F x Hin).
+  split; apply hsl_range_tests_agree; try exact F; vm_compute; reflexivity.
+Qed.
+
+(* defaults: saturation 100, lightness 50, alpha 100 *)
+Lemma hsl_defaults h sa l :
+  hsl_model o [h] = hsl_model o [h; 100%float; 50%float; 100%float] /\
+  hsl_model o [h; sa] = hsl_model o [h; sa; 50%float; 100%float] /\
+  hsl_model o [h; sa; l] = hsl_model o [h; sa; l; 100%float].
+Proof.
+  assert (A : hsl_out_of_range 100 100 = false) by (vm_compute; reflexivity).
+  assert (B : hsl_out_of_range 50 100 = false) by (vm_compute; reflexivity).
+  unfold hsl_model, hsl_with. rewrite A, B.
+  repeat split; repeat match goal with |- context [hsl_out_of_range ?x ?hi] => destruct (hsl_out_of_range x hi) end; reflexivity.
+Qed.
+
+End HslFacts.
+
 (* float constants for Props/C13.v (which does not import Floats, so that Print
    Assumptions shows the primitive operations with their qualified names) *)
 Definition fc_nan : float := nan.
@@ -1039,3 +1149,6 @@ Lemma run_calls_err_protocol o ff calls st t i cr :
              | None => b_err st
              end.
 Proof. intros H. rewrite (run_calls_err o ff calls st t i cr H). apply err_protocol. Qed.
+Definition fc_360 : float := 360%float.
+Definition fc_100 : float := 100%float.
+Definition fc_50 : float := 50%float.
